@@ -185,6 +185,12 @@ func checkString(s string, s2 string) string {
 	if _, msg := wireOK(cb); msg != "" {
 		return "in containers: " + msg
 	}
+	// ---- key of a map whose key type is a named string type; a map of a named map type, then two lists of strings
+	mix := &zoo.StrMix{Tags: map[zoo.Label]string{zoo.Label(s): s2, "k": s}, Attrs: zoo.Dict{s: s2, "k": s}, Names: []string{s}, Alias: []string{s2, s},
+		Blobs: [][]byte{[]byte(s2)}, More: [][]byte{[]byte(s), {}}}
+	if stage, rerr, _ := roundTrip(mix); rerr != nil {
+		return fmt.Sprintf("named key type, named map type in front of two lists of strings: %s: %v", stage, rerr)
+	}
 	return ""
 }
 
